@@ -34,6 +34,16 @@ Clauses(e) ==
                IF e.dt = "complex"
                THEN CircDist(e.fbin, e.k, e.nfft) <= ComplexTol(e)
                ELSE AbsI(AbsI(e.fbin) - e.k) <= CeilDiv(e.nfft, e.N) + 1>> }
+    ELSE IF e.ev = "fold" THEN
+        \* where the one-sided values of real data come from, relative to the two-sided estimate of the same
+        \* samples declared complex: the periodogram keeps the first bins as they are, the correlogram folds
+        \* +f and -f together, every other class doubles the first bins (C04)
+        { <<"no-exception", ~e.raised>>,
+          <<"one-sided-length", e.raised \/ e.len_ok>>,
+          <<"one-sided-values-sit-on-the-positive-axis", e.raised \/ ~e.len_ok \/
+               IF e.cls = "Periodogram" THEN Small(e.same_dev, 100)
+               ELSE IF e.cls = "pcorrelogram" THEN Small(e.fold_dev, 100)
+               ELSE Small(e.double_dev, 100)>> }
     ELSE { <<"unknown-event", FALSE>> }
 
 VARIABLES l, fails
